@@ -641,6 +641,8 @@ class DynamicBayesianNetwork(DAG):
         >>> student.add_cpds(grade_cpd, d_i_cpd, diff_cpd, intel_cpd, i_i_cpd)
         >>> student.initialize_initial_state()
         """
+        # Reject an inconsistent model before anything is added to it.
+        self.check_model()
         for cpd in self.cpds:
             temp_var = DynamicNode(cpd.variable[0], 1 - cpd.variable[1])
             parents = self.get_parents(temp_var)
